@@ -18,37 +18,37 @@ Variable children : list (option child_ops).
 
 Definition region_step (fuel:nat) (ev:evt) (r:nat) : M nat :=
   bind get (fun rn => let s := nth r (act rn) 0 in
-                      run_cell cf mc children fuel r s ev (cell_items cf parents mc children s (e_ty ev))).
+                      run_cell cf contained mc children fuel r s ev (cell_items cf parents mc children s (e_ty ev))).
 
 Lemma regions_loop_seq fuel ev n : forall r acc rn g,
-  regions_loop cf parents mc children fuel ev n r acc rn g = seq_or (region_step fuel ev) (seqn r n) acc rn g.
+  regions_loop cf parents contained mc children fuel ev n r acc rn g = seq_or (region_step fuel ev) (seqn r n) acc rn g.
 Proof.
   induction n as [|n IH]; intros r acc rn g; cbn; [reflexivity|].
   unfold region_step at 1. unfold bind, get. cbn.
-  destruct (run_cell cf mc children fuel r (nth r (act rn) 0) ev _ rn g) as [[[c|] rn1] g1]; [|reflexivity].
+  destruct (run_cell cf contained mc children fuel r (nth r (act rn) 0) ev _ rn g) as [[[c|] rn1] g1]; [|reflexivity].
   apply IH.
 Qed.
 
 Definition exit_step (fuel:nat) (ev:evt) (r:nat) : M unit :=
-  bind get (fun rn => exec_exit mc children fuel (nth r (act rn) 0) ev).
+  bind get (fun rn => exec_exit contained mc children fuel (nth r (act rn) 0) ev).
 Definition entry_step (fuel:nat) (ev:evt) (r:nat) : M unit :=
-  bind get (fun rn => exec_entry cf mc children fuel (nth r (act rn) 0) ev EkPlain).
+  bind get (fun rn => exec_entry cf contained mc children fuel (nth r (act rn) 0) ev EkPlain).
 
 Lemma exit_regions_seq fuel ev n : forall r rn g,
-  exit_regions mc children fuel ev n r rn g = iterM (exit_step fuel ev) (seqn r n) rn g.
+  exit_regions contained mc children fuel ev n r rn g = iterM (exit_step fuel ev) (seqn r n) rn g.
 Proof.
   induction n as [|n IH]; intros r rn g; cbn; [reflexivity|].
   unfold exit_step at 1. unfold bind, get. cbn.
-  destruct (exec_exit mc children fuel (nth r (act rn) 0) ev rn g) as [[[u|] rn1] g1]; [|reflexivity].
+  destruct (exec_exit contained mc children fuel (nth r (act rn) 0) ev rn g) as [[[u|] rn1] g1]; [|reflexivity].
   apply IH.
 Qed.
 
 Lemma start_regions_seq fuel ev n : forall r rn g,
-  start_regions cf mc children fuel ev n r rn g = iterM (entry_step fuel ev) (seqn r n) rn g.
+  start_regions cf contained mc children fuel ev n r rn g = iterM (entry_step fuel ev) (seqn r n) rn g.
 Proof.
   induction n as [|n IH]; intros r rn g; cbn; [reflexivity|].
   unfold entry_step at 1. unfold bind, get. cbn.
-  destruct (exec_entry cf mc children fuel (nth r (act rn) 0) ev EkPlain rn g) as [[[u|] rn1] g1]; [|reflexivity].
+  destruct (exec_entry cf contained mc children fuel (nth r (act rn) 0) ev EkPlain rn g) as [[[u|] rn1] g1]; [|reflexivity].
   apply IH.
 Qed.
 End Back.
